@@ -13,6 +13,14 @@ for seed in "${seeds[@]}"; do
   git -C /repo apply /verif/seeded/$seed/patch.diff || { echo "$seed: patch does not apply"; continue; }
   t0=$(date +%s)
   out=$(cd /verif && ./check $id $tier 2>&1); rc=$?
+  # a change filed under one property may only be reachable through a path that another property's check
+  # owns (meta.json: "detect_with"): those checks are run too when the own check is silent
+  if [ $rc -ne 1 ]; then
+    for other in $(python3 -c "import json,sys; print(' '.join(json.load(open('/verif/seeded/$seed/meta.json')).get('detect_with', [])))"); do
+      out2=$(cd /verif && ./check $other $tier 2>&1); rc2=$?
+      if [ $rc2 -eq 1 ]; then out="$out2"; rc=1; id=$other; break; fi
+    done
+  fi
   t1=$(date +%s)
   git -C /repo checkout -- .; git -C /repo clean -fdq avro/src avro_derive/src
   nviol=$(echo "$out" | grep -c '^VIOLATION')
